@@ -50,5 +50,26 @@ class Known:
         return None
 
 
+# ---- Engine B triggers (run-level: the finding excuses its property's clauses for the whole run)
+def match_recipe_step(self, run, c):
+    k = c['c']
+    if k == 'fill_to' and len(c['tgt']) > 1 and c['tgt'][1] is not None and c['tgt'][1].get('k') != 'all':
+        cells = run.cells_of(c['tgt'], {n: o for n, o in run.eager.items() if o is not None})
+        o = run.eager.get(c['tgt'][0])
+        if cells is not None and o is not None and len(cells) < o.n_rows * o.n_columns:
+            return self._hit('recipe_fill_to_slice', ('C07', 'C08', 'C09', 'C15'))
+    if k == 'dilute' and c.get('name'):
+        return self._hit('recipe_dilute_rename', ('C09', 'C15', 'C17'))
+    return None
+
+def match_bake_after_failed_bake(self, run):
+    return self._hit('bake_after_failed_bake', ('C08',))
+
+
+Known.match_recipe_step = match_recipe_step
+Known.match_bake_after_failed_bake = match_bake_after_failed_bake
+del match_recipe_step, match_bake_after_failed_bake
+
+
 def load():
     return Known()
